@@ -400,6 +400,72 @@ func (p *Prog) BuildAliases() {
 			bind(best, g, " (same signature as other renamed functions; recognised by what it calls and touches)")
 		}
 	}
+	// 3b. a body moved behind a forwarder: a function of the reference tree
+	// still exists but only forwards to ONE new unexported function of the same
+	// owner that does what the reference function did (`MkdirAll` -> `mkdirAll(...,
+	// onCreated)`), and other functions now call the new one directly. The new
+	// function is the one the rules mean; the forwarder is renamed out of the way.
+	{
+		var names []string
+		for n := range refSigs {
+			if _, ok := actualFn[n]; ok {
+				names = append(names, n)
+			}
+		}
+		sort.Strings(names)
+		for _, r := range names {
+			F := actualFn[r]
+			var G *ssa.Function
+			calls, other := 0, 0
+			InstrsShallow(F, func(in ssa.Instruction) {
+				c, ok := in.(ssa.CallInstruction)
+				if !ok {
+					return
+				}
+				cal := c.Common().StaticCallee()
+				if cal == nil || !p.InModule(cal) || cal.Parent() != nil {
+					if _, isMC := c.Common().Value.(*ssa.MakeClosure); isMC {
+						other++
+					}
+					return
+				}
+				if G == nil || G == cal {
+					G = cal
+					calls++
+				} else {
+					other++
+				}
+			})
+			if G == nil || calls != 1 || other != 0 || len(F.AnonFuncs) > 0 || len(F.Blocks) > 4 {
+				continue
+			}
+			gn := p.fnNameRaw(G)
+			if _, old := refSigs[gn]; old || takenF[gn] || !unexp(gn) || ownerOf(gn) != ownerOf(r) || actualFn[gn] != G {
+				continue
+			}
+			// called directly by someone else as well
+			direct := false
+			for _, fn := range p.ModFuncs {
+				if fn == F || fn == G || fn.Parent() == G || p.IsTestFile(fn.Pos()) {
+					continue
+				}
+				InstrsShallow(fn, func(in ssa.Instruction) {
+					if c, ok := in.(ssa.CallInstruction); ok && c.Common().StaticCallee() == G {
+						direct = true
+					}
+				})
+			}
+			if !direct {
+				continue
+			}
+			if sg, sf := sim(r, gn), sim(r, r); sg >= 0.5 && sg-sf >= 0.2 {
+				at.funcFwd[gn] = r
+				at.funcFwd[r] = r + "$entry"
+				takenF[gn] = true
+				at.notes = append(at.notes, "function "+gn+" is treated as "+r+", whose body it took over ("+r+" only forwards to it)")
+			}
+		}
+	}
 	// 4. renamed unexported package variables: same package, same type, the
 	// only vanished and the only new variable of that type
 	actGlob := map[string]string{}
